@@ -808,7 +808,9 @@ def parse_tag(text: str, parser: Optional[Parser]) -> Tuple[str, List[TagAttr]]:
                 # - `**` - Inside dicts: `{% component key={ **spread } %}`
                 spread_token = extract_spread_token(curr_value, filter_token)
                 # Handle top-level spread `{% component ...attrs %}`
-                if curr_value.type == "simple":
+                # NOTE: Only the first part of the value (`...attrs` in `...attrs|default:other`) can carry the spread.
+                #       The parts that follow are filters; they must not reset it.
+                if curr_value.type == "simple" and filter_token is None:
                     curr_value.spread = spread_token
 
                 # IMPORTANT!!! Depending on whether we're in a list or dict, there may be extra terminal tokens.
